@@ -3,7 +3,7 @@ deck.'''
 import random
 
 from .. import model as M
-from .. import formats, gen_cells, gen_univ, gen_lat
+from .. import formats, gen_cells, gen_univ, gen_lat, gen_mix
 from ..judge import convert_deck
 from . import c04, c10, c12
 
@@ -53,6 +53,8 @@ SOURCES = {
             ['ortho-2d', 'shorthand', 'cli-single', 'array-own',
              'fill-rotation']),
     'c07': (lambda rng, fam: gen_lat.build_hex(rng, fam), ['regular-8']),
+    'mix': (lambda rng, fam: gen_mix.build(rng, fam),
+            ['univ+rect', 'cells+hex']),
     'c04': (None, ['surf-tr|generic', 'trcl-star|generic',
                    'trcl-inline12|quarter', 'implicit|generic']),
     'c10': (None, ['atom-massrho', 'keywords', 'exponents', 'atom-atomrho']),
